@@ -521,17 +521,17 @@ def gen_cases(rng, tier):
     deep = not quick
     cases = []
     per = 20
-    reps = 8 if quick else 80
+    reps = 3 if quick else 60
     for _ in range(reps):
         for impl in ("old", "new"):
             for intro in ("root", "view", "db", "gff", "db", "root", "gapped"):
                 n = per if intro != "gapped" else per // 2
                 cases.append({"kind": "seq", "impl": impl, "intro": intro, "seed": rng.randrange(2**32), "n": n, "deep": deep})
-    areps = 10 if quick else 100
+    areps = 4 if quick else 80
     for _ in range(areps):
         for intro in ("add", "add", "db", "gff"):
             cases.append({"kind": "aln", "intro": intro, "seed": rng.randrange(2**32), "n": 12, "deep": deep})
-    creps = 4 if quick else 30
+    creps = 2 if quick else 24
     for _ in range(creps):
         for impl in ("old", "new"):
             cases.append({"kind": "coll", "impl": impl, "seed": rng.randrange(2**32), "n": 20})
@@ -649,7 +649,7 @@ def explain(hyps, got, relwin, ap):
         for nm, (spans, strand) in hm.items():
             if not ok:
                 break
-            st = status(spans, wlo, whi, ap)
+            st = "in" if h.get("no_filter") else status(spans, wlo, whi, ap)
             c = names.count(nm)
             ok = c == 1 if st == "in" else (c == 0 if st == "out" else c <= 1)
         for f in got:
@@ -667,17 +667,38 @@ def explain(hyps, got, relwin, ap):
     return None
 
 
+D5 = "C04/degap-keeps-db-without-rebasing"
+D8 = "C04/alignment-feature-not-rebased-after-slice"
+D11_OLD = "C04/collection-get_features-ignores-member-view-bounds"
+D11_NEW = "C04/collection-of-views-keeps-db-without-rebasing"
+
+
+def named(why, impl):
+    """hypothesis label -> mechanism; labels of root causes kept as known findings are complete strings"""
+    return why if why.startswith("C04/") else f"C04/{why}/{impl}"
+
+
 def generic(ctx, level, check, impl):
     """mechanism of a mismatch no hypothesis explains: named by the check and the operation it first appears after"""
-    if level == "coll" and impl == "new" and ctx.scn.get("intro") == "members":
-        return "C04/collection-of-views-keeps-db-without-rebasing/new"
-    if level in ("coll", "alndegap") and check == "unexpected-feature":
-        return f"C04/collection-get_features-ignores-member-view-bounds/{impl}"
     if ctx.op == "fslice":
         return f"C04/slice-by-feature/result-annotations-misplaced/{impl}"
-    if ctx.op == "degap" and level == "seq":
-        return f"C04/sequence-degap-keeps-db-without-rebasing/{check}/{impl}"
     return f"C04/{level}-{check}/after-{ctx.op}/{impl}"
+
+
+def fresh_root(parent, view, model, label, off=0, gapped=False, no_filter=False):
+    """defect hypothesis: the object was rebuilt from the string the view shows (coordinates restart at 0, plus
+    strand = the view's strand) while the annotation db still holds the old absolute coordinates"""
+    lo, hi, rev = view
+    t = rc(parent[lo:hi]) if rev else parent[lo:hi]
+    if gapped:
+        t = t.replace("-", "")
+    m = {nm: ([(a + off, b + off) for a, b in sp], st) for nm, (sp, st) in model.items() if all(a + off >= 0 for a, _ in sp)}
+    return {"label": label, "parent": t, "view": (0, len(t), False), "model": m, "no_filter": no_filter}
+
+
+def ignores_bounds(parent, view, model):
+    """defect hypothesis: the collection returns every feature of the sequence, whatever part of it the member shows"""
+    return {"label": D11_OLD, "parent": parent, "view": view, "model": dict(model), "no_filter": True}
 
 
 def check_seq_features(ctx, obj, parent, view, model, hyps, relwin, ap, got, qkind, level="seq"):
@@ -713,7 +734,7 @@ def check_seq_features(ctx, obj, parent, view, model, hyps, relwin, ap, got, qki
             bad = "duplicate-feature"
         if bad:
             why = explain(hyps, got, relwin, ap)
-            mech = f"C04/{why}/{impl}" if why else generic(ctx, level, bad, impl)
+            mech = named(why, impl) if why else generic(ctx, level, bad, impl)
             ctx.witness(mech, check=bad, feature=nm, spans=spans, strand=strand, expected=st, count=c, **base)
             return
     for f in got:
@@ -746,7 +767,7 @@ def check_seq_features(ctx, obj, parent, view, model, hyps, relwin, ap, got, qki
                 # new-type collection members read their data through the view offset, so the doubled start of a
                 # single-span map shows as wrong residues instead of an exception
                 why = "feature-slice/single-span-start-counted-twice"
-            mech = f"C04/{why}/{impl}" if why else generic(ctx, level, "feature-slice", impl)
+            mech = named(why, impl) if why else generic(ctx, level, "feature-slice", impl)
             ctx.witness(mech, check="feature-slice", got=g, expected=exp, map=repr(f.map), **det)
             return
         # coordinates
@@ -759,7 +780,7 @@ def check_seq_features(ctx, obj, parent, view, model, hyps, relwin, ap, got, qki
         ep = exp_positions(spans, view)
         if gp != ep:
             why = explain(hyps, got, relwin, ap)
-            mech = f"C04/{why}/{impl}" if why else generic(ctx, level, "feature-coords", impl)
+            mech = named(why, impl) if why else generic(ctx, level, "feature-coords", impl)
             ctx.witness(mech, check="feature-coords", got=sorted(gp), expected=sorted(ep), map=repr(f.map), **det)
             return
         # parent[feature]
@@ -819,8 +840,6 @@ def query_seq(ctx, obj, parent, view, model, hyps, win, ap, level="seq"):
             pre = f"C04/get_features/{cls}/{impl}"
         elif ctx.op == "fslice":
             pre = "C04/slice-by-feature/get_features"
-        elif ctx.op == "degap" and level == "seq":
-            pre = "C04/sequence-degap-keeps-db-without-rebasing/get_features"
         else:
             pre = f"C04/{level}-get_features/{cls}"
         ctx.witness(
@@ -874,23 +893,6 @@ def db_holds_given_spans(seq, scn):
         return True
     except Exception:  # noqa: BLE001
         return False
-
-
-def degap_hypothesis(P, off, view, model, gapped):
-    """the defect model 'degap() returns a brand-new root sequence but re-attaches the db': the view string becomes
-    the parent, coordinates start again at 0, the db still holds the old absolute coordinates"""
-    lo, hi, rev = view
-    s = P[lo:hi]
-    if rev:
-        s = rc(s)
-    if gapped:
-        s = s.replace("-", "")
-    return {
-        "label": "sequence-degap-keeps-db-without-rebasing/" + ("gaps-removed" if gapped else "view-coordinates-lost"),
-        "parent": s,
-        "view": (0, len(s), False),
-        "model": {nm: ([(a + off, b + off) for a, b in sp], st) for nm, (sp, st) in model.items() if all(a + off >= 0 for a, _ in sp)},
-    }
 
 
 def run_seq_scn(res, scn):
@@ -1033,7 +1035,7 @@ def run_seq_scn(res, scn):
                 ctx.witness(f"C04/history-{ctx.op}/view-string/{impl}", got=str(nxt), expected=expv, view=nview)
                 return
             cur, view = nxt, nview
-            extra = [degap_hypothesis(P, off, view, model, gapped_degap)] if st[0] == "degap" else []
+            extra = [fresh_root(P, view, model, D5, off=off, gapped=gapped_degap)] if st[0] == "degap" else []
             if gapped_degap:
                 observe_degapped(ctx, cur, P, view, model, extra)
             else:
@@ -1061,9 +1063,15 @@ def observe_degapped(ctx, obj, P, view, model, hyps):
             got = list(obj.get_features(allow_partial=ap))
         except Exception as e:  # noqa: BLE001
             res.evals += 1
-            ctx.witness(exc_mechanism(f"C04/{h['label']}/get_features", e), error=repr(e)[:300], view=view)
+            ctx.witness(exc_mechanism("C04/seq-get_features/after-degap-gapped", e), error=repr(e)[:300], view=view)
             return
         names = [f.name for f in got]
+        nn = len(h["parent"])
+
+        def name_of(check):
+            why = explain([h], got, (0, nn), ap)
+            return why if why else f"C04/seq-{check}/after-degap-gapped/{impl}"
+
         for nm, (spans, strand) in model.items():
             exp = exp_slice(P, spans, strand, lo, hi).replace("-", "")
             st = status(spans, lo, hi, ap)
@@ -1076,7 +1084,7 @@ def observe_degapped(ctx, obj, P, view, model, hyps):
             elif st == "out" and nm in names:
                 bad = "unexpected-feature"
             if bad:
-                ctx.witness(f"C04/{h['label']}/{impl}", check=bad, feature=nm, spans=spans, view=view, allow_partial=ap, got_names=names)
+                ctx.witness(name_of(bad), check=bad, feature=nm, spans=spans, view=view, allow_partial=ap, got_names=names)
                 return
         for f in got:
             if f.name not in model:
@@ -1089,11 +1097,11 @@ def observe_degapped(ctx, obj, P, view, model, hyps):
             try:
                 g = str(f.get_slice())
             except Exception as e:  # noqa: BLE001
-                ctx.witness(exc_mechanism(f"C04/{h['label']}/feature-slice", e), error=repr(e)[:300], feature=f.name, view=view)
+                ctx.witness(exc_mechanism("C04/seq-feature-slice/after-degap-gapped", e), error=repr(e)[:300], feature=f.name, view=view)
                 return
             if g != exp:
                 ctx.witness(
-                    f"C04/{h['label']}/{impl}", check="feature-slice", feature=f.name, spans=spans, strand=strand, got=g, expected=exp, view=view, allow_partial=ap
+                    name_of("feature-slice"), check="feature-slice", feature=f.name, spans=spans, strand=strand, got=g, expected=exp, view=view, allow_partial=ap
                 )
                 return
 
@@ -1174,10 +1182,7 @@ def check_aln_feature(ctx, obj, rows, view, f, cols_all, strand, kind, nt_sig, a
         sl = f.get_slice()
         g = sl.to_dict()
     except Exception as e:  # noqa: BLE001
-        if kind == "alnfeat" and sliced_view:
-            ctx.witness(exc_mechanism("C04/alignment-feature-not-rebased-after-slice", e), error=repr(e)[:300], **det)
-        else:
-            ctx.witness(exc_mechanism(f"C04/aln-{kind}-slice", e), error=repr(e)[:300], **det)
+        ctx.witness(exc_mechanism(f"C04/aln-{kind}-slice", e), error=repr(e)[:300], **det)
         return
     if nt_sig is not None:
         res.sig(*nt_sig, "s")
@@ -1189,8 +1194,6 @@ def check_aln_feature(ctx, obj, rows, view, f, cols_all, strand, kind, nt_sig, a
                 why = "alignment-feature-not-rebased-after-slice"
             elif strand == "-" and g == rows_at(rows, kept, False):
                 why = "alignment-feature-strand-ignored"
-            elif strand == "-" and g == rows_at(rows, akept, False):
-                why = "alignment-feature-not-rebased-after-slice"
         mech = f"C04/{why}" if why else f"C04/aln-{kind}-slice/after-{ctx.op}"
         ctx.witness(mech, got=g, expected=exp, map=repr(f.map), **det)
         return
@@ -1318,8 +1321,10 @@ def observe_aln(ctx, obj, rows, view, seqfeats, alnfeats, lenient_empty=False):
             gota = list(obj.get_features(on_alignment=True, allow_partial=ap))
         except Exception as e:  # noqa: BLE001
             res.evals += 1
-            if sliced_view:
-                mech = exc_mechanism("C04/alignment-feature-not-rebased-after-slice", e)
+            n_view = hi - lo
+            if sliced_view and isinstance(e, RuntimeError) and any(a > n_view for f in alnfeats for a, _ in f["spans"]):
+                # what un-rebased spans must do: a span that starts beyond the sliced alignment is "located outside"
+                mech = D8
             else:
                 mech = exc_mechanism("C04/aln-get_features-alnfeat", e)
             ctx.witness(mech, error=repr(e)[:300], view=view, allow_partial=ap, alnfeats=alnfeats)
@@ -1341,8 +1346,9 @@ def observe_aln(ctx, obj, rows, view, seqfeats, alnfeats, lenient_empty=False):
             elif c > 1:
                 bad = "duplicate-feature"
             if bad:
-                if sliced_view and bad != "duplicate-feature":
-                    mech = "C04/alignment-feature-not-rebased-after-slice"
+                if sliced_view and bad == "unexpected-feature" and sorted(anames) == sorted(x["name"] for x in alnfeats):
+                    # no window is applied at all: every alignment feature comes back exactly once
+                    mech = D8
                 else:
                     mech = f"C04/aln-get_features-alnfeat/{bad}/after-{ctx.op}"
                 ctx.witness(mech, check=bad, feature=f, view=view, allow_partial=ap, expected=st, count=c, got_names=anames)
@@ -1583,9 +1589,21 @@ def observe_rows(ctx, rows, scn, view):
             try:
                 got = list(coll.get_features(seqid=r, allow_partial=ap))
             except Exception as e:  # noqa: BLE001
-                ctx.witness(exc_mechanism("C04/aln-degap/collection-get_features", e), error=repr(e)[:300], row=r, view=view, allow_partial=ap)
+                try:
+                    lost_id = coll.get_seq(r).parent_coordinates()[0] is None
+                except Exception:  # noqa: BLE001
+                    lost_id = False
+                if lost_id and isinstance(e, (KeyError, ValueError)):
+                    # the degapped sequences are brand-new roots without a seqid, so the collection cannot find
+                    # the records of the db it still carries
+                    mech = D5
+                else:
+                    mech = exc_mechanism("C04/aln-degap/collection-get_features", e)
+                ctx.witness(mech, error=repr(e)[:300], row=r, view=view, allow_partial=ap)
                 return
-            check_seq_features(ctx, None, U, (slo, shi, rev), model, None, (0, shi - slo), ap, got, "degap-collection", level="alndegap")
+            rview = (slo, shi, rev)
+            hy = [fresh_root(U, rview, model, D5, no_filter=True), fresh_root(U, rview, model, D5), ignores_bounds(U, rview, model)]
+            check_seq_features(ctx, None, U, rview, model, hy, (0, shi - slo), ap, got, "degap-collection", level="alndegap")
             if ctx.failed:
                 return
 
@@ -1681,6 +1699,9 @@ def run_coll_scn(res, scn):
             if not model:
                 continue
             hyps = twice(s, model, view) if new_type else []
+            if from_views and new_type:
+                hyps.append(fresh_root(s, view, model, D11_NEW, no_filter=True))
+            hyps.append(ignores_bounds(s, view, model))
             for ap in (True, False):
                 res.evals += 1
                 res.count(f"coll:query-{impl}")
